@@ -655,6 +655,16 @@ func (it *Interp) step(i int, op *Op) {
 	case "tick":
 		w.Height += uint64(op.N)
 
+	case "hostile":
+		if ev := it.hostileEvent(chain, op); ev != nil {
+			if err := ev.Validate(mtypes.ChainID(chain)); err == nil {
+				w.Events = append(w.Events, ev)
+				it.Stats["hostile-event"]++
+				it.Stats[fmt.Sprintf("hostile:%d", op.N%NumHostile)]++
+				it.relayAll(i, op, chain, 1000)
+			}
+		}
+
 	case "xexec":
 		it.step(i, &Op{K: "exec", C: op.C, R: op.R, A: op.A})
 		if !it.Failed() {
@@ -676,5 +686,108 @@ func (it *Interp) step(i int, op *Op) {
 
 	case "relay":
 		it.relayAll(i, op, chain, op.N)
+	}
+}
+
+
+// NumHostile is the number of hostile event variants.
+const NumHostile = 16
+
+var max256 = new(big.Int).Sub(new(big.Int).Lsh(big.NewInt(1), 256), big.NewInt(1))
+
+// hostileEvent builds an event that passes stateless validation but carries
+// contents no honest contract interaction would normally produce.
+func (it *Interp) hostileEvent(chain string, op *Op) mtypes.ExternalEvent {
+	w := it.W[chain]
+	tok := it.H.TokenByDenom(chain, it.denom(op.D))
+	ext := "0x00000000000000000000000000000000DeaDBeef"
+	if chain == "minter" {
+		ext = "424242"
+	}
+	if tok != nil {
+		ext = tok.ExtId
+	}
+	amt := sdkInt(bigOf(op.A))
+	base := func() *mtypes.TransferToChainEvent {
+		return &mtypes.TransferToChainEvent{EventNonce: w.nextNonce(), ExternalCoinId: ext, Amount: amt, Fee: sdk.NewInt(1),
+			Sender: sim.ExtUser(1).Hex(), ReceiverChainId: DestChains[op.R%4], ExternalReceiver: sim.ExtUser(2).Hex(),
+			ExternalHeight: w.Height, TxHash: w.txHash()}
+	}
+	switch op.N % NumHostile {
+	case 0: // negative fee
+		e := base()
+		e.Fee = sdk.NewInt(-5)
+		return e
+	case 1: // fee left unset
+		e := base()
+		e.Fee = sdk.Int{}
+		return e
+	case 2: // fee far above the amount
+		e := base()
+		e.Fee = sdkInt(max256)
+		return e
+	case 3: // amount 2^256-1
+		e := base()
+		e.Amount = sdkInt(max256)
+		return e
+	case 4: // receiver without 0x prefix, to the hub
+		e := base()
+		e.ReceiverChainId = "hub"
+		e.ExternalReceiver = sim.ExtUser(2).Hex()[2:]
+		return e
+	case 5: // unknown destination chain
+		e := base()
+		e.ReceiverChainId = "solana"
+		return e
+	case 6: // deposit of 2^256-1
+		return &mtypes.SendToHubEvent{EventNonce: w.nextNonce(), ExternalCoinId: ext, Amount: sdkInt(max256), Sender: sim.ExtUser(1).Hex(),
+			CosmosReceiver: sim.UserAddr(0).String(), ExternalHeight: w.Height, TxHash: w.txHash()}
+	case 7: // deposit to the module account (blocked address)
+		return &mtypes.SendToHubEvent{EventNonce: w.nextNonce(), ExternalCoinId: ext, Amount: amt, Sender: sim.ExtUser(1).Hex(),
+			CosmosReceiver: it.Accts["module"].String(), ExternalHeight: w.Height, TxHash: w.txHash()}
+	case 8: // deposit of an unregistered token
+		id := "0x00000000000000000000000000000000DeaDBeef"
+		if chain == "minter" {
+			id = "424242"
+		}
+		return &mtypes.SendToHubEvent{EventNonce: w.nextNonce(), ExternalCoinId: id, Amount: amt, Sender: sim.ExtUser(1).Hex(),
+			CosmosReceiver: sim.UserAddr(0).String(), ExternalHeight: w.Height, TxHash: w.txHash()}
+	case 9, 10, 11, 12: // execution report of a live batch with odd gas figures / payer
+		var live []*mtypes.BatchTx
+		for _, b := range it.preSnap().Chains[chain].Batches {
+			live = append(live, b)
+		}
+		if len(live) == 0 {
+			return nil
+		}
+		b := live[op.R%len(live)]
+		e := &mtypes.BatchExecutedEvent{ExternalCoinId: b.ExternalTokenId, EventNonce: w.nextNonce(), ExternalHeight: w.Height, BatchNonce: b.BatchNonce,
+			TxHash: w.txHash(), FeePaid: sdk.NewInt(1000), FeePayer: sim.ExtUser(3).Hex()}
+		switch op.N % NumHostile {
+		case 9:
+			e.FeePaid = sdk.NewInt(-1000)
+		case 10:
+			e.FeePaid = sdkInt(max256)
+		case 11:
+			e.FeePaid = sdk.Int{}
+		case 12:
+			e.FeePayer = "not-an-address"
+		}
+		w.Executed[b.BatchNonce] = true
+		if chain == "minter" {
+			w.NextSeq = b.Sequence + 1
+		} else if b.BatchNonce > w.LastExec[b.ExternalTokenId] {
+			w.LastExec[b.ExternalTokenId] = b.BatchNonce
+		}
+		return e
+	case 13: // execution report for a batch the hub does not know
+		return &mtypes.BatchExecutedEvent{ExternalCoinId: ext, EventNonce: w.nextNonce(), ExternalHeight: w.Height, BatchNonce: 1 << 40,
+			TxHash: w.txHash(), FeePaid: sdk.NewInt(1), FeePayer: sim.ExtUser(3).Hex()}
+	case 14: // signer set report with no members / absurd nonce
+		return &mtypes.SignerSetTxExecutedEvent{EventNonce: w.nextNonce(), SignerSetTxNonce: 1 << 62, ExternalHeight: 1<<63 + 5,
+			Members: []*mtypes.ExternalSigner{}, TxHash: w.txHash()}
+	default: // height far in the future
+		return &mtypes.ContractCallExecutedEvent{EventNonce: w.nextNonce(), InvalidationScope: []byte{}, InvalidationNonce: 0,
+			ExternalHeight: 1<<64 - 1, TxHash: w.txHash()}
 	}
 }
